@@ -56,6 +56,23 @@ func c07Diff(l, r map[string]any, reps int) Case {
 		}
 	}
 	L, R := anyToContainer(l), anyToContainer(r)
+	// the SAME two objects diffed several times: same answer every time, and neither is touched
+	if pn := guard(func() {
+		dl, dr := dom.VerifDump(L), dom.VerifDump(R)
+		for i := 0; i < 3; i++ {
+			ms := *diff.Diff(L, R)
+			if !reflect.DeepEqual(ms, first) && !(len(ms) == 0 && len(first) == 0) {
+				fail = append(fail, fmt.Sprintf("Diff call %d on the same two objects returned a different sequence", i+1))
+				break
+			}
+		}
+		_ = *diff.Diff(L, L)
+		if dom.VerifDump(L) != dl || dom.VerifDump(R) != dr {
+			fail = append(fail, "Diff modified one of its arguments")
+		}
+	}); pn != "" {
+		fail = append(fail, "panic in a repeated Diff: "+pn)
+	}
 	if len(first) == 0 {
 		fl, _ := flatPlain(L)
 		fr, _ := flatPlain(R)
@@ -178,7 +195,7 @@ func init() {
 				// sibling keys one of which is a proper prefix of the other, continued by a character
 				// below "." and "[" ('-' and digits sort before them as bytes: "a-b" < "a.x" < "a[0]" < "a_"):
 				// ordering by whole path differs from a depth-first walk in key order
-				o.keys = []string{"a", "a-b", "a0", "a_", "aB", "a-", "b", "b-1"}
+				o.keys = []string{"a", "a-b", "a0", "a_", "aB", "a-", "b", "b-1", "cpu%", "%d"}
 			}
 			switch idx % 10 {
 			case 8:
